@@ -540,6 +540,18 @@ FIXED += [
      json.loads('{"result": "v8", "steps": [{"out": "v0", "table": "t1", "verb": "source"}, {"in": "v0", "items": [["x", ["col", {"n": "a", "v": "v0"}]]], "out": "v1", "verb": "mutate"}, {"in": "v1", "out": "v4", "preds": [["fn", "lt", [["col", {"n": "id", "v": "v1"}], ["fn", "floordiv", [["col", {"c": "x"}], ["lit", 10]], {}]], {}]], "verb": "filter"}, {"in": "v0", "items": [["d", ["lit", "a"]]], "out": "v6", "verb": "mutate"}, {"in": "v4", "items": [["d", ["lit", "a"]]], "out": "v7", "verb": "mutate"}, {"distinct": true, "in": "v6", "out": "v8", "right": "v7", "verb": "union"}], "tables": [{"cols": [["id", "int64"], ["a", "int64"], ["x", "float64"]], "name": "t1", "rows": [[1, null, null]]}]}')),
 ]
 
+FIXED += [
+    ('F76-postgres-lenient-cast-const-or-generic-int', 'C19', 'Postgres non-strict cast handles constant and generic Int types',
+     'PostgreSQL: cast(..., strict=False) between integer types raised ValueError from build_query when the source type was Const-wrapped (a literal or constant column) or either type was the generic Int: the bit width was parsed from the class name',
+     json.loads('{"cast_cell": ["lit_int", "Int8", false, "postgresql"]}')),
+]
+
+FIXED += [
+    ('F77-const-null-column-vs-string-in-union', 'C07', 'a constant null column unifies with a String / Enum / Decimal column',
+     "union(mutate(k=None), mutate(k='r')) raised TypeError (incompatible types const NullType / const String): lca_type filtered NullType before unwrapping Const; non-constant nulls and numeric types were accepted",
+     json.loads('{"result": "v3", "steps": [{"out": "v0", "table": "t0", "verb": "source"}, {"in": "v0", "items": [["k", ["lit", null]]], "out": "v1", "verb": "mutate"}, {"in": "v0", "items": [["k", ["lit", "r"]]], "out": "v2", "verb": "mutate"}, {"distinct": false, "in": "v1", "out": "v3", "right": "v2", "verb": "union"}], "tables": [{"cols": [["id", "int64"], ["a", "int64"]], "name": "t0", "rows": [[1, 5], [2, null]]}]}')),
+]
+
 
 def main():
     log = subprocess.run(["git", "-C", "/repo", "log", "--format=%h %s"], capture_output=True, text=True).stdout.splitlines()
